@@ -22,10 +22,113 @@ ITER = ('slice::iter', 'slice::iter_mut', 'iter::into_iter', 'IntoIterator::into
 ROWS_ITER = ('DenseMatrix::iter', 'DenseMatrix::iter_mut')
 
 
+def _mentions_local(node, l):
+    """Does the raw MIR JSON node read or write local l (as a place base or as an index projection)?"""
+    if isinstance(node, dict):
+        if node.get('l') == l and 'pr' in node:
+            return True
+        if node.get('idx') == l and len(node) == 1:
+            return True
+        return any(_mentions_local(v, l) for v in node.values())
+    if isinstance(node, list):
+        return any(_mentions_local(v, l) for v in node)
+    return False
+
+
+def while_counters(fn, rec):
+    """Hand-written counters `let mut j = k; while j < N { .. j += 1; }` -> {local: (header, k, N)}.
+    Conditions (all necessary for `j` to be "k + iteration position" at every use in the body, with exactly N - k iterations):
+      * j has exactly two whole definitions: a constant outside every loop that contains the other one, and `j = j + 1` inside the loop;
+      * the increment is executed on every iteration (dominates every latch) and nothing in the loop reads j after it
+        (no block strictly dominated by the increment's block mentions j, nor a later statement of that block);
+      * the loop has one normal exit, taken from the header's guard `j < N`;
+      * N is loop-invariant: a constant, a local defined once outside the loop, or rows()/len()/columns() of a place rooted in a
+        shared-reference parameter."""
+    from . import guards as G
+    out = {}
+    if fn is None or rec is None:
+        return out
+    can = fn.postdominators()
+    for l, ds in fn.defs().items():
+        if len(ds) != 2 or l in getattr(fn, 'borrowed_mut', set()) or fn.partial.get(l):
+            continue
+        inl = lambda d: [L_ for L_ in fn.loops() if d[0] in L_['body']]
+        incs = [d for d in ds if inl(d) and d[1] != 'term']
+        inits = [d for d in ds if d not in incs and d[1] != 'term']
+        if len(incs) != 1 or len(inits) != 1:
+            continue
+        bi, si, rv = incs[0]
+        try:
+            uv, iv = norm(rec.rvalue(rv)), norm(rec.rvalue(inits[0][2]))
+        except Exception:
+            continue
+        b = m(('bin', 'Add', '$a', ('k', 1)), uv)
+        if b is None or b['$a'] != ('v', l) or iv[0] != 'k' or not isinstance(iv[1], int) or isinstance(iv[1], bool):
+            continue
+        L = max(inl(incs[0]), key=lambda L_: len(L_['body'])) if False else min(inl(incs[0]), key=lambda L_: len(L_['body']))
+        if inits[0][0] in L['body'] or not all(fn.dominates(bi, lt) for lt in L['latches']):
+            continue
+        # nothing reads j after the increment within the iteration
+        late = False
+        for bj in L['body']:
+            blk = fn.blocks[bj]
+            if bj == bi:
+                nodes = blk['stmts'][si + 1:] + [blk['term']]
+            elif bj != L['header'] and fn.dominates(bi, bj):
+                nodes = blk['stmts'] + [blk['term']]
+            else:
+                continue
+            if any(_mentions_local(n, l) for n in nodes):
+                late = True
+                break
+        if late:
+            continue
+        exits = [(a, c) for a, c in L['exits'] if c in can]
+        if len(exits) != 1:
+            continue
+        # the guard j < N holds on entry to the increment's block and is decided by the exiting block
+        rels = G.relations(fn, rec, bi)
+        N = None
+        for r in rels:
+            if r[0] == 'lt' and norm(r[1]) == ('v', l) and r[-1] == exits[0][0]:
+                N = norm(r[2])
+            elif r[0] == 'gt' and norm(r[2]) == ('v', l) and r[-1] == exits[0][0]:
+                N = norm(r[1])
+        if N is None or not _invariant(fn, L, N):
+            continue
+        out[l] = (L['header'], iv, N)
+    return out
+
+
+def _invariant(fn, L, e):
+    if e[0] in ('k', 'kc'):
+        return True
+    if e[0] == 'v':
+        ds = fn.defs().get(e[1], [])
+        return len(ds) == 1 and ds[0][0] not in L['body'] and e[1] not in fn.borrowed_mut
+    if e[0] == 'p':
+        return not fn.defs().get(e[1]) and e[1] not in fn.borrowed_mut
+    if e[0] == 'call' and e[1].endswith(('::rows', '::len', '::columns')) and len(e[2]) == 1:
+        r = e[2][0]
+        while r[0] in ('fld', 'deref', 'ref'):
+            r = r[1]
+        return r[0] == 'p' and fn.local_ty(r[1]).startswith('&') and not fn.local_ty(r[1]).startswith('&mut')
+    return False
+
+
 class Canon:
     def __init__(self, fn=None, rec=None):
         self.fn, self.rec = fn, rec
         self.extents = {}       # loop id -> list of component extents
+        self._wc = None
+
+    def counters(self):
+        if self._wc is None:
+            try:
+                self._wc = while_counters(self.fn, self.rec)
+            except Exception:
+                self._wc = {}
+        return self._wc
 
     # ---- iterator expressions -------------------------------------------------------------------------------------------------
     def _resolve_local(self, S):
@@ -106,6 +209,11 @@ class Canon:
             return e
         e = norm(e)
         t = e[0]
+        if t == 'v' and self.fn is not None and e[1] in self.counters():
+            h, k0, N = self.counters()[e[1]]
+            L = ('while', h)
+            self.extents[L] = [('sub', self.canon(N), k0)]
+            return ('pos', L) if k0 == ('k', 0) else ('bin', 'Add', k0, ('pos', L))
         if t == 'elem':
             r = self.elem_of(e[1], e[2])
             if r is not None:
